@@ -19,7 +19,7 @@ def machine_key(inp, obs, exp):
     return "machine:" + "".join(sorted(kinds & set("CXKRN")))
 
 
-def machine_stream(ctx, name="c13.machine", specname="c13.spec", quick=6000, thorough=400000, indep=None):
+def machine_stream(ctx, name="c13.machine", specname="c13.spec", quick=6000, thorough=400000, indep=None, harness_args=()):
     """c13.machine: the REAL Thread functions (hook vm/verif_c13.go) vs the extracted Coq machine, plus the
     extracted store-semantics spec on the traces that satisfy the discipline D"""
     h = vlib.build_harness("c13")
@@ -34,7 +34,7 @@ def machine_stream(ctx, name="c13.machine", specname="c13.spec", quick=6000, tho
         "growValueStack; the reads AND the final view (capacity, sp, fp, saved frame pointers, live slots, open list as slot "
         "offsets, every handle open@slot / closed=value) must equal the extracted Coq machine `run`; non-trivial = trace with a "
         "capture and a later close/return/growth/tail call",
-        corpus=corpus,
+        corpus=corpus, harness_args=harness_args,
         nontrivial=lambda inp, obs: " C" in inp and any(x in inp for x in (" X", " R", " G", " g", " T")),
         classify=lambda inp, obs: "len%02d-%02d" % (len(inp.split()) // 20 * 20, len(inp.split()) // 20 * 20 + 19))
     if not r:
